@@ -574,7 +574,7 @@ func ZZ_C03_Center() {
 // weld by position: surviving corners stay in their rounding cell, triangles that do not collapse survive in
 // order, and every attribute of a welded vertex comes from the first vertex of its class.
 func ZZ_C03_Weld() {
-	PosMode = 3
+	PosMode = 4
 	V := 1 + zz.Choose("V", zz.Bound("V"))
 	T := zz.Choose("T", zz.Bound("T")+1)
 	idx := make([]int, 3*T)
@@ -590,7 +590,15 @@ func ZZ_C03_Weld() {
 	m := modeling.NewTriangleMesh(idx).SetFloat3Attribute(modeling.PositionAttribute, pos).SetFloat1Attribute(atrV1, tag)
 	zz.Reach("input")
 	out := m.WeldByFloat3Attribute(modeling.PositionAttribute, 1)
-	cell := func(v vector3.Float64) modeling.VectorInt { return modeling.Vector3ToInt(v, 1) }
+	// the rounding cell at one decimal place, restated here (round half away from zero) rather than taken from the
+	// code under test
+	r1 := func(x float64) int { return int(math.Round(x * 10)) }
+	cell := func(v vector3.Float64) modeling.VectorInt {
+		return modeling.VectorInt{X: r1(v.X()), Y: r1(v.Y()), Z: r1(v.Z())}
+	}
+	for i := 0; i < V; i++ {
+		zz.Assert(modeling.Vector3ToInt(pos[i], 1) == cell(pos[i]), "Vector3ToInt: the rounding cell is the coordinate rounded to the decimal place")
+	}
 	// first vertex of every class
 	first := make([]int, V)
 	for i := 0; i < V; i++ {
